@@ -518,3 +518,8 @@ package http2
 //@   loop 1 invariant [C11:after-every-turn-the-close-timer-is-armed-whenever-a-sent-goaway-allows-closing] sc != nil && sc.srv != nil && (loopNum == 0 || (closeTimerDue(sc) ==> sc.shutdownTimer != nil))
 //@   hint callee-preconditions-assumed
 //@   hint merge-from-start
+
+//@ -- C12, client transport: writers blocked on a stream window, on the connection window, on the stream-count limit
+//@ -- and on connection closure all wait on the one condition variable ClientConn.cond ("broadcast on flow/closed
+//@ -- changes"). A Signal would wake one arbitrary waiter, possibly of the wrong kind, and lose the wake-up.
+//@ broadcast_only [C12:all-waiters-woken-on-window-or-state-change] ClientConn.cond
